@@ -52,6 +52,10 @@ void *memcpy(void *dst, const void *src, size_t n)
 #pragma CPROVER check disable "bounds"
 #pragma CPROVER check disable "pointer-overflow"
 #pragma CPROVER check disable "signed-overflow"
+    if ((n & 7) == 0 && (__CPROVER_POINTER_OFFSET(dst) & 7) == 0 && (__CPROVER_POINTER_OFFSET(src) & 7) == 0) {
+      /* word-wise: keeps pointer-typed fields whole instead of splitting them into bytes */
+      for (size_t i = 0; i < VP_MEM_K / 8; i++) if (8 * i < n) ((unsigned long *) dst)[i] = ((const unsigned long *) src)[i];
+    } else
     for (size_t i = 0; i < VP_MEM_K; i++) if (i < n) ((char *) dst)[i] = ((const char *) src)[i];
 #pragma CPROVER check pop
   } else {
@@ -61,19 +65,25 @@ void *memcpy(void *dst, const void *src, size_t n)
   }
   return dst;
 }
+#ifndef VP_CUSTOM_MEMMOVE
 void *memmove(void *dst, const void *src, size_t n)
 {
   __CPROVER_precondition(__CPROVER_w_ok(dst, n), "memmove destination region writeable");
   __CPROVER_precondition(__CPROVER_r_ok(src, n), "memmove source region readable");
   if (n <= VP_MEM_K) {
-    char tmp[VP_MEM_K];
+    char tmp[VP_MEM_K]; unsigned long wtmp[VP_MEM_K / 8];
 #pragma CPROVER check push
 #pragma CPROVER check disable "pointer"
 #pragma CPROVER check disable "bounds"
 #pragma CPROVER check disable "pointer-overflow"
 #pragma CPROVER check disable "signed-overflow"
+    if ((n & 7) == 0 && (__CPROVER_POINTER_OFFSET(dst) & 7) == 0 && (__CPROVER_POINTER_OFFSET(src) & 7) == 0) {
+      for (size_t i = 0; i < VP_MEM_K / 8; i++) if (8 * i < n) wtmp[i] = ((const unsigned long *) src)[i];
+      for (size_t i = 0; i < VP_MEM_K / 8; i++) if (8 * i < n) ((unsigned long *) dst)[i] = wtmp[i];
+    } else {
     for (size_t i = 0; i < VP_MEM_K; i++) if (i < n) tmp[i] = ((const char *) src)[i];
     for (size_t i = 0; i < VP_MEM_K; i++) if (i < n) ((char *) dst)[i] = tmp[i];
+    }
 #pragma CPROVER check pop
   } else {
     char src_n[n];
@@ -82,6 +92,7 @@ void *memmove(void *dst, const void *src, size_t n)
   }
   return dst;
 }
+#endif
 void *memset(void *s, int c, size_t n)
 {
   __CPROVER_precondition(__CPROVER_w_ok(s, n), "memset destination region writeable");
